@@ -85,13 +85,16 @@ func runC04(c *Ctx) {
 	}()
 	c.Covers = func(name string) bool {
 		i := strings.Index(name, ".")
-		return i > 0 && pk[name[:i]]
+		return i > 0 && (pk[name[:i]] || !strings.Contains(name, "/arity@"))
 	}
 	c04Docs = docByFn
 	c.Replayer = replayArity
 	c.VerifyKnown = true
 	c.Extra["builtins_with_doc_contract"] = len(jobs)
 	c.addResults(results)
+	// functional contracts tagged C04 (apply argument spreading, lambda-list binding)
+	cs := loadContracts(c)
+	runContracts(c, cs, vc.Options{Safety: false, InlineDepth: 2, InlineSize: 100}, defaultSolve())
 	c.Assume = append(c.Assume, "the arity guard is recognised as a call of slip.CheckArgCount on the function's own argument list (directly or in an inlined helper); built-ins that check their argument count by hand are undecided, not claimed",
 		"lambda-list binding of user lambdas (Lambda.Call) is under contract separately")
 }
@@ -163,6 +166,10 @@ func replayArity(c *Ctx, items []*Item) map[string]*ReplayOutcome {
 	for _, it := range items {
 		r := out[goTypeOfRoot(it.Root)]
 		oc := &ReplayOutcome{Harness: "arity"}
+		if it.Kind != "arity" {
+			res[it.Name] = oc
+			continue
+		}
 		if r != nil && r.Status == "ok" {
 			oc.Ran = true
 			d := c04Docs[it.Root]
